@@ -131,13 +131,49 @@ def scram_cases(rng, thorough):
     return out
 
 
+def scram_rejoin_cases(rng, thorough):
+    """one AuthScram object authenticates twice (a re-join): the second challenge comes with other salt / cost / kdf; each
+    proof must be valid for its own challenge and each server signature is judged against its own exchange"""
+    out = []
+    params = [("pbkdf2", 8, 0), ("pbkdf2", 9, 0), ("argon2id-13", 1, 8), ("argon2id-13", 2, 64)]
+    for pw in ("secret", "pässwörd"):
+        for p1 in params:
+            for p2 in params:
+                obs = dict(proofValid=False, accepted=False, esc="")
+                try:
+                    a = AuthScram(authid="alice", password=pw)
+                    ok_all, acc_all = True, True
+                    for (kdf, it, mem) in (p1, p2):
+                        cnonce = a.authextra["nonce"]
+                        snonce = cnonce + base64.b64encode(os.urandom(6)).decode()
+                        salt = base64.b64encode(os.urandom(12)).decode()
+                        extra = {"nonce": snonce, "kdf": kdf, "salt": salt, "iterations": it}
+                        if kdf == "argon2id-13":
+                            extra["memory"] = mem
+                        proof = a.on_challenge(FakeSession(), types.Challenge("scram", extra))
+                        sp = ref_pbkdf2(pw.encode("utf8"), base64.b64decode(salt), it, 32) if kdf == "pbkdf2" else ref_argon2id(pw.encode("utf8"), salt, it, mem)
+                        am = ("n=alice,r=%s,r=%s,s=%s,i=%s,c=,r=%s" % (cnonce, snonce, salt, it, snonce)).encode("ascii")
+                        ck = hmac.new(sp, b"Client Key", hashlib.sha256).digest()
+                        csig = hmac.new(hashlib.sha256(ck).digest(), am, hashlib.sha256).digest()
+                        want = base64.b64encode(bytes(x ^ y for x, y in zip(ck, csig)))
+                        ok_all = ok_all and (proof == want or proof == want.decode())
+                        ssig = hmac.new(hmac.new(sp, b"Server Key", hashlib.sha256).digest(), am, hashlib.sha256).digest()
+                        r = a.on_welcome(FakeSession(), {"scram_server_signature": base64.b64encode(ssig).decode()})
+                        acc_all = acc_all and r is None
+                    obs["proofValid"], obs["accepted"] = bool(ok_all), bool(acc_all)
+                except Exception as e:  # noqa
+                    obs["esc"] = type(e).__name__ + ":" + str(e)[:60]
+                out.append([dict(ev="scram", kdf=p1[0] + ">" + p2[0], alter="none", it=p1[1] * 100 + p2[1], pwlen=len(pw), obs=obs)])
+    return out
+
+
 def cra_cases(rng, thorough):
     out = []
     for secret in ["secret123", "pässwörd-ü𝄞", "x", "s" * 100]:
         for salted in (False, True):
             for keylen in ([32] if not salted else [1, 16, 31, 32, 33, 48, 64]):
                 for it in ([1000] if not salted else [1, 100, 1000]):
-                    salt = rng.choice(["salt123", "sält", "s"])
+                    salt = rng.choice(["salt123", "sält", "s", ""])
                     challenge = '{"nonce":"%s","authid":"alice","timestamp":"2026-09-23T00:00:00Z"}' % base64.b64encode(os.urandom(12)).decode()
                     for alter in ("none", "challenge", "secret", "salt", "iterations", "keylen"):
                         if not salted and alter in ("salt", "iterations", "keylen"):
@@ -304,7 +340,7 @@ def main():
     inp = driver_in()
     rng = random.Random(int(os.environ.get("VERIF_SEED", "0")) * 101 + 9)
     th = bool(inp.get("thorough"))
-    traces = scram_cases(rng, th) + cra_cases(rng, th) + totp_cases(rng, th) + csign_cases(rng, th) + kdf_cases(rng, th)
+    traces = scram_cases(rng, th) + scram_rejoin_cases(rng, th) + cra_cases(rng, th) + totp_cases(rng, th) + csign_cases(rng, th) + kdf_cases(rng, th)
     driver_out(dict(fw=fw.NAME, traces=traces, cases=len(traces)))
 
 
